@@ -407,7 +407,10 @@ function!(BitNot(b:Integer)=>Integer, {
 
 function!(Negative(b:Integer)=>Integer, {
     let b:i64 = b.try_into()?;
-    Ok((-b).into())
+    match b.checked_neg() {
+        Some(v) => Ok(v.into()),
+        None => bail!("integer overflow: -({})", b),
+    }
 });
 
 macro_rules! int_op{
@@ -417,22 +420,47 @@ macro_rules! int_op{
             let b:i64 = b.try_into()?;
             Ok((a $op b).into())
         });
-    }
+    };
+    // shifts: the amount must be in 0..64
+    ($name:ident, $op:tt, shift) =>{
+        function!($name(a: Integer, b: Integer)=>Integer, {
+            let a:i64 = a.try_into()?;
+            let b:i64 = b.try_into()?;
+            if b < 0 || b >= 64 {
+                bail!("shift amount out of range: {} {} {}", a, stringify!($op), b)
+            }
+            Ok((a $op b).into())
+        });
+    };
+    // arithmetic that can overflow or divide by zero: a dynamic error, never a panic
+    ($name:ident, $op:tt, $checked:ident) =>{
+        function!($name(a: Integer, b: Integer)=>Integer, {
+            let a:i64 = a.try_into()?;
+            let b:i64 = b.try_into()?;
+            match a.$checked(b) {
+                Some(v) => Ok(v.into()),
+                None => bail!("integer overflow or division by zero: {} {} {}", a, stringify!($op), b),
+            }
+        });
+    };
 }
 
-int_op!(Plus,+);
-int_op!(Minus,-);
-int_op!(Multiply,*);
-int_op!(Divide,/);
-int_op!(Mod,%);
+int_op!(Plus,+,checked_add);
+int_op!(Minus,-,checked_sub);
+int_op!(Multiply,*,checked_mul);
+int_op!(Divide,/,checked_div);
+int_op!(Mod,%,checked_rem);
 int_op!(BitAnd,&);
 int_op!(BitOr,|);
 int_op!(BitXor,^);
-int_op!(ShiftLeft,<<);
-int_op!(ShiftRight,>>);
+int_op!(ShiftLeft,<<,shift);
+int_op!(ShiftRight,>>,shift);
 function!(ShiftRightUnsigned(a: Integer, b: Integer)=>Integer, {
     let a:i64 = a.try_into()?;
     let b:i64 = b.try_into()?;
+    if b < 0 || b >= 64 {
+        bail!("shift amount out of range: {} >>> {}", a, b)
+    }
     let a = a as u64;
     let a = (a >> b) as i64;
     Ok(a.into())
